@@ -16,6 +16,7 @@ import (
 func main() {
 	e := lib.Init("C02", "exploration")
 	e.RunScriptWitnesses()
+	e.Extra("regression_inputs_of_repaired_defects", e.RunRegressionScripts())
 	off := func(f string) bool { return e.Quarantined(f) }
 
 	type tcase struct {
